@@ -1,0 +1,66 @@
+//go:build verif
+
+package netty
+
+import "sync/atomic"
+
+// VerifPoint names a hook point used by the out-of-tree runtime monitors.
+// Only compiled with the verif build tag.
+type VerifPoint int
+
+type verifPoint = VerifPoint
+
+const (
+	vpWriteEnqueued verifPoint = iota + 1
+	vpWriteAcquired
+	vpSendLoop
+	vpSendBatched
+	vpSendWritten
+	vpSendRecycled
+	vpSendFlushed
+	vpSendReleased
+	vpCloseElected
+	vpClosePoll
+	vpCloseWaited
+	vpCloseTransportClosed
+	vpCloseCancelled
+	vpReadActiveDone
+	vpReadIdleCheck
+	vpWriteIdleCheck
+)
+
+// exported names of the hook points.
+const (
+	VpWriteEnqueued        = vpWriteEnqueued
+	VpWriteAcquired        = vpWriteAcquired
+	VpSendLoop             = vpSendLoop
+	VpSendBatched          = vpSendBatched
+	VpSendWritten          = vpSendWritten
+	VpSendRecycled         = vpSendRecycled
+	VpSendFlushed          = vpSendFlushed
+	VpSendReleased         = vpSendReleased
+	VpCloseElected         = vpCloseElected
+	VpClosePoll            = vpClosePoll
+	VpCloseWaited          = vpCloseWaited
+	VpCloseTransportClosed = vpCloseTransportClosed
+	VpCloseCancelled       = vpCloseCancelled
+	VpReadActiveDone       = vpReadActiveDone
+	VpReadIdleCheck        = vpReadIdleCheck
+	VpWriteIdleCheck       = vpWriteIdleCheck
+)
+
+type verifHookFn func(p VerifPoint, subject interface{})
+
+var verifHook atomic.Value // verifHookFn
+
+// SetVerifHook installs fn (nil removes it); fn is called at every hook point
+// with the *channel (or idle handler) the point belongs to.
+func SetVerifHook(fn func(p VerifPoint, subject interface{})) {
+	verifHook.Store(verifHookFn(fn))
+}
+
+func verifAt(p verifPoint, subject interface{}) {
+	if fn, _ := verifHook.Load().(verifHookFn); nil != fn {
+		fn(p, subject)
+	}
+}
